@@ -64,7 +64,7 @@ Module Names.
 Import Coq.Strings.String.
 (* OBLIGATION *)
 Theorem translated_functions :
-  G.translated = ["Clear"; "Dequeue"; "Empty"; "Enqueue"; "Full"; "New"; "Peek"; "Size"; "Values"; "calculateSize"; "withinRange"]%string
+  G.translated = ["Clear"; "Dequeue"; "Empty"; "Enqueue"; "FromJSON"; "Full"; "MarshalJSON"; "New"; "Peek"; "Size"; "ToJSON"; "UnmarshalJSON"; "Values"; "calculateSize"; "withinRange"]%string
   /\ G.skipped = ["String"]%string /\ G.not_selected = [].
 Proof. repeat split. Qed.
 Print Assumptions translated_functions.
